@@ -435,6 +435,8 @@ int main(int argc, char** argv) {
     { g_step = 1; advertising_check(srv); }
     g_step = 2;
     if (!g_skip.count(2)) discovery_procedures(0);
+    g_step = 3;
+    if (!g_skip.count(3)) range_sweep(0);
 
     // bursts: number of requests issued before polling
     for (unsigned long long i = 0; i < ops; ++i) {
